@@ -144,6 +144,18 @@ pub fn gen(tier: &str, rng: &mut Rng, emit: &mut dyn FnMut(String)) {
     for s in ["18446744073709551616", "99999999999999999999", "100000000000000000000", "340282366920938463463374607431768211456", "00", "0", "-", "--", "-0", "0x", "١٢", "1e3", "٠"] {
         emit(format!("idx {}", hex(s.as_bytes())));
     }
+    for d in [18usize, 19, 20, 21, 22, 25, 40] {
+        for digit in ["7", "1", "9"] {
+            let run = digit.repeat(d);
+            for junk in ["x", "+", " ", "\u{661}", "\u{b2}", "-", "e1"] {
+                emit(format!("idx {}", hex(format!("{run}{junk}").as_bytes())));
+                emit(format!("idx {}", hex(format!("{run}{junk}{run}").as_bytes())));
+            }
+        }
+    }
+    for s in ["18446744073709551615x", "18446744073709551616x", "1\u{b2}", "\u{661}", "1a", "1A", "1:", "3x", "2 ", "1e1", "1_0", "0x1", "٣"] {
+        emit(format!("idx {}", hex(s.as_bytes())));
+    }
     let lens = [0usize, 1, 2, usize::MAX - 1, usize::MAX];
     for l in lens {
         emit(format!("flen next {l}"));
